@@ -58,8 +58,8 @@ def label_bits(label: str, m: int, kind=None) -> str:
         return '0' + '1' * n + '0' + label
     if kind == 'long':
         return '10' + (format(n, f'0{k}b') if k else '') + label
-    assert len(set(label)) <= 1 and n >= 1
-    return '11' + label[0] + (format(n, f'0{k}b') if k else '')
+    assert len(set(label)) <= 1
+    return '11' + (label[0] if n else '0') + (format(n, f'0{k}b') if k else '')
 
 
 def lcp(keys):
